@@ -74,6 +74,9 @@ class Content(Tag):
             peeked, (TagToken, OutputToken, CommentToken, RawToken, LinesToken)
         ):
             right_trim = peeked.wc[0]
+        elif isinstance(peeked, ContentToken):
+            # More of the same text, after a `{#` that does not start a comment.
+            right_trim = WhitespaceControl.PLUS
 
         return self.node_class(
             token,
